@@ -47,7 +47,7 @@ Pointer::Pointer(const std::string &name)
     : definitionName(name) {}
 
 Pointer::Pointer(const Pointer &other)
-    : ptr(other.ptr), varCtx(other.varCtx), definitionName(other.definitionName)
+    : ptr(other.ptr), varCtx(other.varCtx), varCtxId(other.varCtxId), definitionName(other.definitionName)
 {}
 
 void Pointer::setValue(Variable *value) {
@@ -56,12 +56,14 @@ void Pointer::setValue(Variable *value) {
     while (varCtx->isCompositeCtx) {
         varCtx = varCtx->getParent();
     }
+    varCtxId = varCtx->id;
 }
 
 void Pointer::operator=(const Pointer &other) {
     if (definitionName != other.definitionName) std::abort();
     ptr = other.ptr;
     varCtx = other.varCtx;
+    varCtxId = other.varCtxId;
 }
 
 Variable *Pointer::getValue() const {
@@ -70,6 +72,10 @@ Variable *Pointer::getValue() const {
 
 const Context *Pointer::getCtx() const {
     return varCtx;
+}
+
+unsigned long Pointer::getCtxId() const {
+    return varCtxId;
 }
 
 const PointerTypeDefinition &Pointer::getDefinition(Context &ctx) const {
